@@ -91,6 +91,9 @@ type sObs struct {
 	Has   map[string]bool   `json:"has"`
 	Get   map[string]string `json:"get"`
 	NErrs int               `json:"nerrs"`
+	// NextErrs: what Check says, right afterwards, of a coherent schema that holds every type name this
+	// one mentions (probeSchema): what one call found missing is nothing to the next
+	NextErrs int `json:"next_nerrs"`
 	// the empty name, probed apart
 	HasEmpty bool   `json:"has_empty"`
 	GetEmpty string `json:"get_empty"`
@@ -209,9 +212,16 @@ func toType(t jType) jsonapi.Type {
 // occurs twice shows as such)
 var projByName bool
 
+// projNoAttrs: the attributes of the schema at hand were put there by the build ("litattrs"), beside
+// the model's state: they are left out of what the model is shown
+var projNoAttrs bool
+
 func projType(t jsonapi.Type) jType {
 	jt := jType{Name: atn(t.Name), Attrs: attrMap{}, Rels: relMap{}}
 	for _, k := range sortedKeys(t.Attrs) {
+		if projNoAttrs {
+			break
+		}
 		a := t.Attrs[k]
 		key := afn(k)
 		if projByName {
@@ -278,9 +288,24 @@ func applySchemaOp(s *jsonapi.Schema, op sOp) string {
 
 func buildSchema(c sCase) *jsonapi.Schema {
 	s := &jsonapi.Schema{}
-	if c.Build == "lit" {
+	if c.Build == "lit" || c.Build == "litattrs" {
 		for _, t := range c.State {
-			s.Types = append(s.Types, toType(t))
+			typ := toType(t)
+			if c.Build == "litattrs" {
+				// every type also has attributes, named like its own relationships and like the inverses
+				// they name (Type.AddAttr and AddRel each look at their own kind only): nothing to Check
+				for _, r := range typ.Rels {
+					for _, n := range []string{r.FromName, r.ToName} {
+						if n != "" {
+							if typ.Attrs == nil {
+								typ.Attrs = map[string]jsonapi.Attr{}
+							}
+							typ.Attrs[n] = jsonapi.Attr{Name: n, Type: jsonapi.AttrTypeString}
+						}
+					}
+				}
+			}
+			s.Types = append(s.Types, typ)
 		}
 		return s
 	}
@@ -353,6 +378,30 @@ func quietly(f func()) {
 	}
 }
 
+// probeSchema: a coherent schema of its own that holds a type for every type name s mentions - its
+// types, and the types its relationships point to or claim to belong to - and one more type with a
+// one-way relationship to each of them
+func probeSchema(s *jsonapi.Schema) *jsonapi.Schema {
+	names := map[string]bool{}
+	for _, t := range s.Types {
+		names[t.Name] = true
+		for _, r := range t.Rels {
+			names[r.ToType], names[r.FromType] = true, true
+		}
+	}
+	delete(names, "")
+	delete(names, "probe-hub")
+	p := &jsonapi.Schema{}
+	hub := jsonapi.Type{Name: "probe-hub", Rels: map[string]jsonapi.Rel{}}
+	for i, n := range sortedKeys(names) {
+		p.Types = append(p.Types, jsonapi.Type{Name: n})
+		rn := fmt.Sprintf("to%d", i)
+		hub.Rels[rn] = jsonapi.Rel{FromType: "probe-hub", FromName: rn, ToOne: true, ToType: n}
+	}
+	p.Types = append(p.Types, hub)
+	return p
+}
+
 func observeSchema(s *jsonapi.Schema, probes []string) sObs {
 	o := sObs{Has: map[string]bool{}, Get: map[string]string{}}
 	o.HasEmpty = s.HasType("")
@@ -370,7 +419,8 @@ func runSchemaCase(c sCase, probes []string) sEvent {
 	defer func() { nameStyle = 0 }()
 	setupPanicked = false
 	projByName = c.Build == "hand"
-	defer func() { projByName = false }()
+	projNoAttrs = c.Build == "litattrs"
+	defer func() { projByName, projNoAttrs = false, false }()
 	s := buildSchema(c)
 	ev := sEvent{Pre: projSchema(s), Op: c.Op}
 	if c.Kind == "check" {
@@ -385,6 +435,9 @@ func runSchemaCase(c sCase, probes []string) sEvent {
 		ev.Post = projSchema(s)
 		ev.Obs = observeSchema(s, nil)
 		ev.Obs.NErrs = len(errs)
+		if pr, _ := catch(func() { ev.Obs.NextErrs = len(probeSchema(s).Check()) }); pr {
+			ev.Obs.NextErrs = -1
+		}
 		return ev
 	}
 	ev.Ev = "step"
